@@ -43,6 +43,7 @@ Fixpoint text_ok (en : env) (e : expr) {struct e} : Prop :=
                     (fix all (l : list expr) : Prop := match l with [] => True | x :: r => text_ok en x /\ all r end) items
   | EPList items => Nat.even (length items) = true /\
                     (fix all (l : list expr) : Prop := match l with [] => True | x :: r => text_ok en x /\ all r end) items
+  | EObj _ _ _ => False
   | _ => True
   end.
 Fixpoint text_ok_args (en : env) (l : list expr) : Prop := match l with [] => True | x :: r => text_ok en x /\ text_ok_args en r end.
@@ -187,6 +188,7 @@ Proof.
       unfold gen_lingo. rewrite (gen_lingo_todict _ _ _ _ _ _ Hne). rewrite map_rev. unfold gen_lingo in E. rewrite E.
       rewrite goR_rev by (rewrite map_length; exact Hev).
       norm_render. rewrite render_sep, render_pairs_F. rewrite map_map. repeat rewrite sappend_assoc. rewrite ?append_nil_r. reflexivity.
+  - intros f pid x _ [].
   - intros _ pc ind. reflexivity.
   - intros x l IHx IHl [Hx Hl] pc ind. cbn [reify_args]. destruct (reify_args en (pc + zlen (compile_e x)) l) as [ns pa] eqn:Er.
     cbn [fst map]. rewrite (IHx Hx). specialize (IHl Hl (pc + zlen (compile_e x))%Z ind). rewrite Er in IHl. cbn [fst] in IHl. rewrite IHl. reflexivity.
@@ -215,6 +217,7 @@ Definition stmt_text (en : env) (props : list string) (s : stmt) : string :=
     | [] => nth f (e_lfuncs en) ""
     | _ => (nth f (e_lfuncs en) "" ++ " " ++ join ", " (map (fun e => render en (pp_tok en e)) args))%string
     end
+  | SSetObj _ _ _ _ => ""%string      (* object properties are outside the text theorems (text_ok_s) *)
   end.
 
 Definition leaf_like (k : lclass) (n : node) : Prop := match n with Leaf k' _ _ _ => k' = k | _ => False end.
@@ -230,6 +233,7 @@ Definition text_ok_s (en : env) (props : list string) (s : stmt) : Prop :=
   (* go is a family of its own: go loop / go next / go previous write their symbol bare *)
   | SCallS f args => (lingo_plain_call (nm en f) = true /\ String.eqb (nm en f) "go" = false) /\ text_ok_args en args
   | SLCallS f args => (lingo_plain_call (nth f (e_lfuncs en) "") = true /\ String.eqb (nth f (e_lfuncs en) "") "go" = false) /\ text_ok_args en args
+  | SSetObj _ _ _ _ => False
   end.
 
 Lemma args_text en l : text_ok_args en l -> forall pc ind,
@@ -245,7 +249,7 @@ Theorem stmt_line en props s : text_ok_s en props s -> forall pc ind,
   gen_lingo (reify_s en props pc s) ind = (indent ind ++ stmt_text en props s ++ "
 ")%string.
 Proof.
-  destruct s as [t e|f args|f args]; intros Hok pc ind.
+  destruct s as [t e|f args|f args|fam pid o v]; intros Hok pc ind; [| | |destruct Hok].
   - destruct Hok as (He & Hf & Ht). cbn [reify_s stmt_text]. unfold gen_lingo. cbn [gen_lingo_sp].
     change (String.eqb "assign" "assign") with true. cbn iota.
     pose proof (gen_lingo_is_render en e He pc ind) as E. unfold gen_lingo in E. rewrite E.
